@@ -26,8 +26,10 @@
 EXTENDS GeomFeatures, TLC, Json
 CONSTANTS Memo,              \* "none" (the implementation) | "flat" (conversion memoised under (type, flattened numbers))
           Tier               \* "quick" | "thorough" | "cov" (a small sub-universe of both, run with -coverage: every action is taken)
-VARIABLES kind, hist, idx, pc, shape, sb, feat, anch, memo
-vars == <<kind, hist, idx, pc, shape, sb, feat, anch, memo>>
+VARIABLES kind, hist, idx, pc, shape, sb, feat, anch, memo, dec     \* dec = <<>> (lattice case) | <<[tq, fq]>> (decimal case)
+vars == <<kind, hist, idx, pc, shape, sb, feat, anch, memo, dec>>
+Fm == IF dec = <<>> THEN FMAXT ELSE DecFm(dec[1])            \* MAX_FREQUENCY in this case's frequency ticks
+BM(g) == B2(g, Fm)
 toks == hist[idx]                             \* the geometry being processed
 
 GV == INSTANCE GeomValidate
@@ -122,6 +124,31 @@ Pairs(S)  == {<<x, y>> : x, y \in S} \ {<<x, x>> : x \in S}
 Histories == IF Tier = "cov"
              THEN {[kind |-> "MultiPolygon", seq |-> h] : h \in Pairs(MPRegroup(<<L(Closed(RectCCW(0, 0, 4, FMAXT))), L(Closed(RectCW(1, 1, 3, 3)))>>))}
              ELSE UNION {{[kind |-> f.kind, seq |-> h] : h \in Pairs(f.set)} : f \in Families}
+(* ---- the size dimension: long lines and rings with runs of exactly collinear vertices ---- *)
+\* (a conversion must keep every vertex, also the ones that add nothing to the shape)
+Sizes == IF Tier = "cov" THEN {} ELSE IF Thorough THEN {66, 100, 300} ELSE {66, 100}
+LongPt(pat, i) == CASE pat = "plateau"  -> P(i, 2)                       \* constant frequency: every interior vertex is collinear
+                    [] pat = "diagonal" -> P(i, i)                       \* a straight diagonal on the lattice
+                    [] pat = "steps"    -> P(i, (i \div 8) % 4)          \* plateaus of eight points joined by steps
+                    [] pat = "repeat"   -> P(i \div 2, (i \div 6) % 3)   \* every point twice, on plateaus of three
+LongPts(pat, n) == [i \in 1..n |-> LongPt(pat, i)]
+\* the boundary of the rectangle [t0, t0 + w] x [f0, f0 + h] walked in unit steps: 2w + 2h vertices, all but four collinear
+RingWH(w, h, t0, f0) ==
+    [i \in 1..(2 * w + 2 * h) |->
+        LET j == i - 1 IN
+        IF j < w THEN P(t0 + j, f0)
+        ELSE IF j < w + h THEN P(t0 + w, f0 + (j - w))
+        ELSE IF j < 2 * w + h THEN P(t0 + w - (j - w - h), f0 + h)
+        ELSE P(t0, f0 + h - (j - 2 * w - h))]
+Shell(n) == L(RingWH(n \div 2 - 3, 3, 0, 0))                             \* n vertices
+HoleIn(n) == L(RingWH(n \div 2 - 7, 1, 2, 1))                            \* inside Shell(n)
+LongCases ==
+    {K("LineString", L(LongPts(p, n))) : p \in {"plateau", "diagonal", "steps", "repeat"}, n \in Sizes \cup {n - 1 : n \in Sizes}}
+    \cup {K("MultiLineString", L(<<L(LongPts(p, n)), L(<<P(0, 0), P(1, 2)>>)>>)) : p \in {"plateau", "steps"}, n \in Sizes}
+    \cup {K("MultiLineString", L(<<L(<<P(0, 3), P(2, 1)>>), L(LongPts("diagonal", n)), L(LongPts("repeat", n))>>)) : n \in Sizes}
+    \cup {K("Polygon", L(<<Shell(n)>>)) : n \in Sizes} \cup {K("Polygon", L(<<Shell(n), HoleIn(n)>>)) : n \in Sizes}
+    \cup {K("MultiPolygon", L(<<L(<<Shell(n), HoleIn(n)>>), L(<<L(RingWH(40, 2, n, 0))>>)>>)) : n \in Sizes}
+
 (* ---- late geometries: times are only bounded below, frequencies on both sides ---- *)
 \* 2^26 ticks: more seconds than MAX_FREQUENCY has hertz at every time unit of the binder (2^26 / 8 s = 8 388 608 s);
 \* doubled it still is far below TLC's 2^31
@@ -140,70 +167,89 @@ StradBase == IF Tier = "cov" THEN Intervals
              ELSE Intervals \cup SomeBoxes \cup Lines2 \cup Polys \cup PolysH \cup MPolys
                   \cup {c \in MPoints \cup MLines : Len(GV!Kids(c.toks)) = 2}
 LateCases == {Later(c, 0) : c \in LateBase} \cup ({Later(c, 2) : c \in StradBase} \ StradBase)
-Singles   == {[kind |-> c.kind, seq |-> <<c.toks>>] : c \in Cases \cup LateCases}
+Singles   == {[kind |-> c.kind, seq |-> <<c.toks>>] : c \in Cases \cup LateCases \cup LongCases}
+
+(* ---- decimal cases: coordinates that are no ticks of a dyadic unit (time = tick / tq s, frequency = tick / fq Hz) ---- *)
+DecUnits == {[tq |-> 10, fq |-> 100, T |-> {0, 1, 3, 7, 9}],               \* 0.1 0.3 0.7 0.9 s
+             [tq |-> 100, fq |-> 100, T |-> {1, 7, 33, 90, 99}]}           \* a two-decimal grid
+DecF == {0, 10, 70001, 123456}                                             \* 0.1, 700.01, 1234.56 Hz
+DecCases(u) ==
+    LET TP == {p \in u.T \X u.T : p[1] <= p[2]}
+        FP == {<<0, 123456>>, <<10, 70001>>, <<10, 10>>, <<70001, 123456>>}
+        PP == {P(t, f) : t \in u.T, f \in {10, 123456}}
+        PQ == {x \in PP \X PP : x[1][2] <= x[2][2]}
+    IN  IF Tier = "cov" THEN {K("TimeInterval", <<O, p[1], p[2], C>>) : p \in TP}
+        ELSE {K("TimeStamp", <<t>>) : t \in u.T} \cup {K("TimeInterval", <<O, p[1], p[2], C>>) : p \in TP}
+             \cup {K("Point", P(t, f)) : t \in u.T, f \in DecF}
+             \cup {K("BoundingBox", <<O, tp[1], fp[1], tp[2], fp[2], C>>) : tp \in TP, fp \in FP}
+             \cup {K("LineString", L(<<x[1], x[2]>>)) : x \in PQ} \cup {K("MultiPoint", L(<<x[1], x[2]>>)) : x \in PQ}
+             \cup {K("Polygon", L(<<L(<<P(tp[1], 10), P(tp[2], 70001), P(tp[1], 123456)>>)>>)) : tp \in {p \in TP : p[1] < p[2]}}
+             \cup {K("MultiLineString", L(<<L(<<P(tp[1], 10), P(tp[2], 70001)>>), L(<<P(tp[1], 123456), P(tp[2], 0)>>)>>)) : tp \in {p \in TP : p[1] < p[2]}}
+             \cup {K("MultiPolygon", L(<<L(<<L(<<P(tp[1], 0), P(tp[2], 10), P(tp[2], 70001)>>)>>), L(<<L(<<P(tp[1], 70001), P(tp[2], 123456), P(tp[1], 123456)>>)>>)>>)) : tp \in {p \in TP : p[1] < p[2]}}
 
 (* ---- the machine ---- *)
 NoShape == [kind |-> "", parts |-> <<>>]
 NumsOf(s) == SelectSeq(s, IsNumTok)
 Nums == NumsOf(toks)                              \* the flattened coordinate numbers of the current geometry
-Init == /\ \E h \in Singles \cup Histories : kind = h.kind /\ hist = h.seq
+Init == /\ \/ \E h \in Singles \cup Histories : kind = h.kind /\ hist = h.seq /\ dec = <<>>
+           \/ \E u \in DecUnits : \E c \in DecCases(u) : kind = c.kind /\ hist = <<c.toks>> /\ dec = <<[tq |-> u.tq, fq |-> u.fq]>>
         /\ idx = 1 /\ pc = "convert" /\ shape = NoShape /\ sb = <<>> /\ feat = <<>> /\ anch = <<>> /\ memo = <<>>
 \* conversion.py builds the shape from the geometry and from nothing else
 Hit == {i \in DOMAIN memo : memo[i].key = Nums}
 Convert    == /\ pc = "convert" /\ pc' = "bounds"
               /\ IF Memo = "flat" /\ Hit # {}
                  THEN shape' = memo[CHOOSE i \in Hit : TRUE].shape /\ memo' = memo               \* (seeded variant only)
-                 ELSE /\ shape' = ImplShape(Geo)
-                      /\ memo' = IF Memo = "flat" THEN Append(memo, [key |-> Nums, shape |-> ImplShape(Geo)]) ELSE memo
-              /\ UNCHANGED <<kind, hist, idx, sb, feat, anch>>
-ReadBounds == pc = "bounds"   /\ sb' = ImplBounds(shape) /\ pc' = "features" /\ UNCHANGED <<kind, hist, idx, shape, feat, anch, memo>>
-Features   == pc = "features" /\ feat' = ImplFeat(Geo, sb) /\ pc' = "anchors" /\ UNCHANGED <<kind, hist, idx, shape, sb, anch, memo>>
+                 ELSE /\ shape' = ImplShape2(Geo, Fm)
+                      /\ memo' = IF Memo = "flat" THEN Append(memo, [key |-> Nums, shape |-> ImplShape2(Geo, Fm)]) ELSE memo
+              /\ UNCHANGED <<kind, hist, idx, sb, feat, anch, dec>>
+ReadBounds == pc = "bounds"   /\ sb' = ImplBounds(shape) /\ pc' = "features" /\ UNCHANGED <<kind, hist, idx, shape, feat, anch, memo, dec>>
+Features   == pc = "features" /\ feat' = ImplFeat(Geo, sb) /\ pc' = "anchors" /\ UNCHANGED <<kind, hist, idx, shape, sb, anch, memo, dec>>
 Anchors    == pc = "anchors"  /\ anch' = [i \in DOMAIN Positions |-> ImplAnchor2(Positions[i], sb)] /\ pc' = "done"
-              /\ UNCHANGED <<kind, hist, idx, shape, sb, feat, memo>>
+              /\ UNCHANGED <<kind, hist, idx, shape, sb, feat, memo, dec>>
 \* the next geometry of the history, in the same process: every working variable starts afresh
 NextGeom   == /\ pc = "done" /\ idx < Len(hist) /\ idx' = idx + 1 /\ pc' = "convert"
               /\ shape' = NoShape /\ sb' = <<>> /\ feat' = <<>> /\ anch' = <<>>
-              /\ UNCHANGED <<kind, hist, memo>>
+              /\ UNCHANGED <<kind, hist, memo, dec>>
 Next == Convert \/ ReadBounds \/ Features \/ Anchors \/ NextGeom
 Spec == Init /\ [][Next]_vars /\ WF_vars(Next)
 
 Finished == pc = "done" /\ idx = Len(hist)
-Export == Finished => PrintT(<<"CASE", ToJson([gs |-> [i \in DOMAIN hist |-> G(kind, GV!Tree(hist[i]))]])>>)
+Export == Finished => PrintT(<<"CASE", ToJson([gs |-> [i \in DOMAIN hist |-> G(kind, GV!Tree(hist[i]))], dec |-> dec])>>)
 
 (* ---- Impl => Req ---- *)
 AtStart == pc = "bounds"      \* once per geometry, in a non-initial state (initial states are checked by one thread only)
 GeneratedAreValid  == AtStart => GV!Valid(kind, toks) /\ GV!Normal(kind, toks) = toks       \* constructible (C03), already in normal form
 ImplShapePreserves == pc = "bounds" => ShapePreserves(Geo, shape) /\ (kind \in GeoJsonKinds => shape.kind = kind)
-ImplBoundsExact    == pc = "features" => sb = B(Geo)
-ImplFeatRight      == pc = "anchors" => LET g == Geo  f == Feat(g) IN
+ImplBoundsExact    == pc = "features" => sb = BM(Geo)
+ImplFeatRight      == pc = "anchors" => LET g == Geo  f == FeatOf(g, BM(g)) IN
                                         /\ \A i \in DOMAIN feat : feat[i][2] = f[feat[i][1]]
                                         /\ Required(g) \subseteq {feat[i][1] : i \in DOMAIN feat}
-ImplAnchorsRight   == pc = "done" => LET b == B(Geo) IN \A i \in DOMAIN Positions : anch[i] = AnchorOf(b, Positions[i])
+ImplAnchorsRight   == pc = "done" => LET b == BM(Geo) IN \A i \in DOMAIN Positions : anch[i] = AnchorOf(b, Positions[i])
 
 (* ---- laws of the specification itself (b = the bounds of this state's geometry) ---- *)
-LawBoundsOrdered == AtStart => LET b == B(Geo) IN b[1] <= b[3] /\ b[2] <= b[4] /\ b[1] >= 0 /\ b[2] >= 0 /\ b[4] <= FMAXT
+LawBoundsOrdered == AtStart => LET b == BM(Geo) IN b[1] <= b[3] /\ b[2] <= b[4] /\ b[1] >= 0 /\ b[2] >= 0 /\ b[4] <= Fm
 \* only the frequency axis has a ceiling: the end of a late geometry lies beyond FMAXT seconds at every unit, and Req keeps it
-LawTimeHasNoCeiling == AtStart => \A i \in DOMAIN Nums : (IsTimeTok(kind, toks, i) /\ toks[i] >= LATE) => B(Geo)[3] >= LATE
-LawTimeOnlyBand  == (AtStart /\ kind \in TimeOnlyKinds) => LET b == B(Geo) IN b[2] = 0 /\ b[4] = FMAXT
+LawTimeHasNoCeiling == AtStart => \A i \in DOMAIN Nums : (IsTimeTok(kind, toks, i) /\ toks[i] >= LATE) => BM(Geo)[3] >= LATE
+LawTimeOnlyBand  == (AtStart /\ kind \in TimeOnlyKinds) => LET b == BM(Geo) IN b[2] = 0 /\ b[4] = Fm
 \* the bounds said a second way: straight from the tokens (odd numbers are times, even numbers frequencies)
 LawBoundsFromTokens ==
     (AtStart /\ kind \notin TimeOnlyKinds) =>
        LET ns == Nums
            ts == {ns[i] : i \in {j \in DOMAIN ns : j % 2 = 1}}
            fs == {ns[i] : i \in {j \in DOMAIN ns : j % 2 = 0}}
-       IN  B(Geo) = <<SetMin(ts), SetMin(fs), SetMax(ts), SetMax(fs)>>
-LawFeat == AtStart => LET g == Geo  b == B(g)  f == FeatOf(g, b) IN
-              /\ f = Feat(g)
+       IN  BM(Geo) = <<SetMin(ts), SetMin(fs), SetMax(ts), SetMax(fs)>>
+LawFeat == AtStart => LET g == Geo  b == BM(g)  f == FeatOf(g, b) IN
+              /\ (dec = <<>> => f = Feat(g))
               /\ f.duration >= 0 /\ f.bandwidth >= 0 /\ b[1] + f.duration = b[3] /\ f.low_freq + f.bandwidth = f.high_freq
               /\ (kind \in {"TimeStamp", "Point"} => f.duration = 0) /\ (kind = "Point" => f.bandwidth = 0)
               /\ f.num_segments >= 1 /\ (kind \notin MultiKinds => f.num_segments = 1)
 \* every named position lies on the bounds; the nine names are pairwise consistent
-LawAnchorsOnBounds == AtStart => LET b == B(Geo) IN
+LawAnchorsOnBounds == AtStart => LET b == BM(Geo) IN
     \A i \in DOMAIN Positions : LET a == AnchorOf(b, Positions[i]) IN
         /\ a[1] \in {2 * b[1], b[1] + b[3], 2 * b[3]} /\ a[2] \in {2 * b[2], b[2] + b[4], 2 * b[4]}
         /\ 2 * b[1] <= a[1] /\ a[1] <= 2 * b[3] /\ 2 * b[2] <= a[2] /\ a[2] <= 2 * b[4]
-LawAnchorsConsistent == AtStart => LET g == Geo  b == B(g)  A(pos) == AnchorOf(b, pos) IN
-    /\ A("center") = Anchor2(g, "center")
+LawAnchorsConsistent == AtStart => LET g == Geo  b == BM(g)  A(pos) == AnchorOf(b, pos) IN
+    /\ (dec = <<>> => A("center") = Anchor2(g, "center"))
     /\ A("bottom-left")[1] = A("center-left")[1] /\ A("center-left")[1] = A("top-left")[1]             \* one left
     /\ A("bottom-right")[1] = A("center-right")[1] /\ A("center-right")[1] = A("top-right")[1]         \* one right
     /\ A("bottom-center")[1] = A("center")[1] /\ A("center")[1] = A("top-center")[1]                   \* one middle time
